@@ -664,6 +664,8 @@ func runC13(c *Ctx) {
 		c.verdict(okRet && len(pos) >= 1, c.nm(ib)+" | non-false result is banStore.Status(ipNet).Banned", c.P.Pos(ib.Pos()), "result derives from the store", "IsBanned returns something other than the store's Banned flag", c.ats(pos)...)
 	})
 
+	c.rule("C13.G2", blockValidatedDoc, func() { c.blockValidated() })
+
 	c.rule("C13.O2", "ban-on-misbehaviour sites enumerated: each detection site calls the ban function with its tabled reason (GetBlock handler x2 InvalidBlock; cfheaders handler InvalidFilterHeaderCheckpoint; getUncheckpointedCFHeaders x2 InvalidFilterHeader; resolveConflict x3; OnVersion NoCompactFilters)", func() {
 		type site struct {
 			fn     string
